@@ -34,6 +34,10 @@ Adv == l' = l + 1
 
 Proc(t) == <<IF t.pk = "rt" THEN RtBase ELSE t.base, t.gen>>
 
+\* lower bound of "now" for an internal step: the time of the last consumed event
+PrevT == IF l > 1 THEN TraceLog[l - 1].t ELSE 0
+NextT == IF l <= Len(TraceLog) THEN TraceLog[l].t ELSE PrevT
+
 ----------------------------------------------------------------------------
 (* observable actions *)
 
@@ -90,7 +94,9 @@ TRet ==
        THEN /\ ReturnEn(st, T.cid)
             /\ ResMatches(st.calls[T.cid].res, T)
             /\ st' = ReturnDo(st, T.cid)
-       ELSE \* network error: the server closed the connection (status 0) or the client's process is dead
+       ELSE \* network error: the server closed the connection (status 0), the client's process is dead,
+            \* or the client itself broke the connection ("aborted")
+            \/ /\ T.net = "aborted" /\ AbortEn(st, T.cid) /\ st' = AbortDo(st, T.cid)
             \/ /\ ReturnEn(st, T.cid) /\ st.calls[T.cid].res.status = 0
                /\ st' = ReturnDo(st, T.cid)
             \/ /\ AbortEn(st, T.cid)
@@ -116,6 +122,8 @@ TInvokeRet ==
     \* the timer runs for the configured function timeout; every invocation is answered within
     \* timeout + reset allowance (2 s) + exit grace (2 s) + slack
     /\ (T.out = "InvokeTimeout" => T.dur >= st.timeoutMs)
+    \* an extra caller is refused immediately
+    /\ (T.out = "AlreadyReserved" => T.dur <= 1000)
     /\ T.dur <= st.timeoutMs + 4000 + Slack
     /\ st' = CallerReturnDo(st, T.caller)
     /\ UNCHANGED tp /\ Adv
@@ -130,17 +138,28 @@ TExitDelivered ==
     /\ WatchRecvEn(st, Proc(T)) /\ st' = WatchRecvDo(st, Proc(T))
     /\ UNCHANGED tp /\ Adv
 
+TExitSend ==
+    /\ Is("ExitSend")
+    /\ ExitSendEn(st, Proc(T)) /\ st' = ExitSendDo(st, Proc(T))
+    /\ UNCHANGED tp /\ Adv
+
 TTerminate ==
     /\ Is("Terminate")
     /\ ShutTermRuntimeEn(st) /\ st.pcS.rtp = Proc(T)
-    /\ st' = ShutTermRuntimeDo(st)
+    /\ st' = [ShutTermRuntimeDo(st) EXCEPT !.pcS.tterm = T.t]
     /\ UNCHANGED tp /\ Adv
 
 TKillCall ==
     /\ Is("KillCall")
     /\ \/ /\ ShutKillRuntimeNowEn(st) /\ st.pcS.rtp = Proc(T) /\ st' = ShutKillRuntimeNowDo(st)
-       \/ /\ ShutKillRuntimeLateEn(st) /\ st.pcS.rtp = Proc(T) /\ st' = ShutKillRuntimeLateDo(st)
-       \/ /\ ShutAgentKillEn(st, Proc(T)) /\ st' = ShutAgentKillDo(st, Proc(T))
+       \* the runtime is killed only after 30% of the time that was available when TERM was sent
+       \/ /\ ShutKillRuntimeLateEn(st) /\ st.pcS.rtp = Proc(T)
+          /\ (st.pcS.dl > 0 => 10 * (T.t - st.pcS.tterm) >= 3 * (st.pcS.dl - st.pcS.tterm) - 30)
+          /\ st' = ShutKillRuntimeLateDo(st)
+       \* an extension subscribed to SHUTDOWN is killed only at the deadline, others at once
+       \/ /\ ShutAgentKillEn(st, Proc(T))
+          /\ (Proc(T) \in st.shutAwait /\ st.pcS.dl > 0 => T.t >= st.pcS.dl - 3)
+          /\ st' = ShutAgentKillDo(st, Proc(T))
     /\ UNCHANGED tp /\ Adv
 
 TelMatches(x, t) ==
@@ -156,9 +175,35 @@ TTel ==
     /\ tp' = tp + 1
     /\ UNCHANGED st /\ Adv
 
+TResetCall ==
+    /\ Is("ResetCall")
+    /\ DriverResetEn(st) /\ st' = DriverResetDo(st, T.reason, T.t + T.timeoutMs)
+    /\ UNCHANGED tp /\ Adv
+
+TResetRet ==
+    /\ Is("ResetRet")
+    /\ DriverResetRetEn(st)
+    \* returns within the deadline plus the 2 s exit grace plus slack
+    /\ T.t <= st.drvDl + 2000 + Slack
+    /\ st' = DriverResetRetDo(st)
+    /\ UNCHANGED tp /\ Adv
+
+TShutdownCall ==
+    /\ Is("ShutdownCall")
+    /\ DriverShutdownEn(st) /\ st' = [DriverShutdownDo(st) EXCEPT !.pcS.dl = T.t + T.timeoutMs, !.drvDl = T.t + T.timeoutMs]
+    /\ UNCHANGED tp /\ Adv
+
+TShutdownRet ==
+    /\ Is("ShutdownRet")
+    /\ DriverShutdownRetEn(st)
+    /\ T.t <= st.drvDl + 2000 + Slack
+    /\ st' = DriverShutdownRetDo(st)
+    /\ UNCHANGED tp /\ Adv
+
 Observable ==
     \/ TBegin \/ TInitCall \/ TExec \/ TCall \/ TRet \/ TInvokeCall \/ TInvokeRet
-    \/ TProcExit \/ TExitDelivered \/ TTerminate \/ TKillCall \/ TTel
+    \/ TProcExit \/ TExitSend \/ TExitDelivered \/ TTerminate \/ TKillCall \/ TTel
+    \/ TResetCall \/ TResetRet \/ TShutdownCall \/ TShutdownRet
 
 ----------------------------------------------------------------------------
 (* internal steps *)
@@ -168,7 +213,8 @@ Step(en, do) == en /\ st' = do
 Internal ==
     /\ l <= Len(TraceLog)
     /\ UNCHANGED <<l, tp>>
-    /\ \/ Step(LaunchExtEn(st) /\ LaunchExtExec(st) = "none", LaunchExtDo(st))
+    /\ \/ Step(InitLockEn(st), InitLockDo(st))
+       \/ Step(LaunchExtEn(st) /\ LaunchExtExec(st) = "none", LaunchExtDo(st))
        \/ Step(LaunchRuntimeEn(st) /\ LaunchRuntimeExec(st) = "none", LaunchRuntimeDo(st))
        \/ Step(AfterRuntimeReadyEn(st), AfterRuntimeReadyDo(st))
        \/ Step(AgentsReadyEn(st), AgentsReadyDo(st))
@@ -184,13 +230,16 @@ Internal ==
             \/ Step(MainBeginEn(st, k), MainBeginDo(st, k))
             \/ Step(RelReserveEn(st, k), RelReserveDo(st, k))
             \/ Step(FioAwaitInitEn(st, k), FioAwaitInitDo(st, k))
-            \/ Step(FioShutdownEn(st, k), FioShutdownDo(st, k))
+            \/ Step(FioShutdownEn(st, k), [FioShutdownDo(st, k) EXCEPT !.pcS.dl = PrevT + 2000])
             \/ Step(FioShutdownDoneEn(st, k), FioShutdownDoneDo(st, k))
             \/ Step(FioFastInvokeEn(st, k), FioFastInvokeDo(st, k))
             \/ Step(FiiStartEn(st, k), FiiStartDo(st, k))
             \/ Step(FiiDefaultErrorEn(st, k), FiiDefaultErrorDo(st, k))
             \/ Step(FiiSendDoneEn(st, k), FiiSendDoneDo(st, k))
-            \/ Step(RelAwaitEn(st, k), RelAwaitDo(st, k))
+            \/ Step(RelAwaitEn(st, k),
+                    LET s2 == RelAwaitDo(st, k) IN
+                    IF <<k, "F">> \in DOMAIN s2.rs /\ <<k, "F">> \notin DOMAIN st.rs
+                    THEN [s2 EXCEPT !.rs[<<k, "F">>].dl = PrevT + 2000] ELSE s2)
             \/ Step(RelAfterResetEn(st, k), RelAfterResetDo(st, k))
             \/ Step(MainGotResultEn(st, k), MainGotResultDo(st, k))
             \* the timer: not before the function timeout has elapsed (the step lies before the next recorded
@@ -207,13 +256,15 @@ Internal ==
             \/ Step(ResetFinishEn(st, x), ResetFinishDo(st, x))
             \/ Step(ResetClearEn(st, x), ResetClearDo(st, x))
             \/ Step(ResetServerClearEn(st, x), ResetServerClearDo(st, x))
+       \/ Step(DriverShutdownLockEn(st), DriverShutdownLockDo(st, st.pcS.dl))
        \/ Step(ShutBeginEn(st), ShutBeginDo(st))
        \/ Step(ShutRuntimeExitedEn(st), ShutRuntimeExitedDo(st))
        \/ Step(ShutAgentsEn(st), ShutAgentsDo(st))
        \/ \E p \in st.pcS.todo : Step(ShutAgentExitedEn(st, p), ShutAgentExitedDo(st, p))
-       \/ Step(ShutAgentsJoinedEn(st), ShutAgentsJoinedDo(st))
+       \/ Step(ShutAgentsJoinedEn(st), [ShutAgentsJoinedDo(st) EXCEPT !.pcS.treap = PrevT])
        \/ Step(ShutReapedEn(st), ShutReapedDo(st))
-       \/ Step(ShutReapTimeoutEn(st), ShutReapTimeoutDo(st))
+       \* the 2 s exit grace (only meaningful when the wait started in this step sequence: treap > 0)
+       \/ Step(ShutReapTimeoutEn(st) /\ (st.pcS.treap > 0 => NextT >= st.pcS.treap + 2000 - 5), ShutReapTimeoutDo(st))
        \/ \E p \in DOMAIN st.procs : Step(WatchRecvEn(st, p), WatchRecvDo(st, p))
        \/ Step(WatchHandleEn(st), WatchHandleDo(st))
        \/ Step(WatchCancelEn(st), WatchCancelDo(st))
